@@ -175,6 +175,7 @@ func runC12(e *Env) {
 
 	// ---- invert helper
 	checkInvert(e, p)
+	checkTablesFrozen(e, p, load.PkgArch, "E4.frozen")
 
 	// ---- Info literals, pairing and oracle comparison
 	infos := archInfoLits(pk)
